@@ -2,6 +2,7 @@ package godi
 
 import (
 	"context"
+	"errors"
 	"fmt"
 	"reflect"
 	"strconv"
@@ -315,7 +316,7 @@ func (sc *collection) doBuild(ctx context.Context) (Provider, error) {
 			return nil, &BuildError{
 				Phase:   "cleanup",
 				Details: "failed to clean up partially created provider",
-				Cause:   closeErr,
+				Cause:   errors.Join(err, closeErr),
 			}
 		}
 
@@ -334,7 +335,7 @@ func (sc *collection) doBuild(ctx context.Context) (Provider, error) {
 			return nil, &BuildError{
 				Phase:   "cleanup",
 				Details: "failed to clean up partially created provider",
-				Cause:   closeErr,
+				Cause:   errors.Join(err, closeErr),
 			}
 		}
 
